@@ -101,6 +101,8 @@ type Opts struct {
 	// library that wants to see headers messages itself would: it parses count and headers from
 	// the tee'd stream until the stream ends.
 	HeaderHandler bool
+	// PeerRcvBuf > 0: the scripted peer's socket has a receive buffer of that many bytes
+	PeerRcvBuf int
 }
 
 // appHeaderHandler reads a headers payload the way an application handler does.
@@ -148,7 +150,7 @@ func nodeConfig() *bitcoin_reader.Config {
 
 // Start listens, starts a real BitcoinNode.Run towards the listener and accepts its connection.
 func Start(t failer, o Opts) *Session {
-	peer, err := p2p.Listen()
+	peer, err := p2p.ListenBuf(o.PeerRcvBuf)
 	if err != nil {
 		t.Fatalf("listen: %s", err)
 	}
